@@ -19,8 +19,14 @@ pub struct Oracle {
     pub abs_keeps_neg_zero: bool,
     /// atan2 met with both arguments zero (the case C03 / C14 leave out)
     pub atan00: bool,
+    /// atan2 met with a zero FIRST argument (the angle jumps by 2 pi with the sign of that zero when the second is negative)
+    pub atan_y_zero: bool,
     /// a min / max / and / or picked between two zeros, or passed a zero on: the sign of the zero it returns is not fixed
     pub zero_tie: bool,
+    /// a min / max met two EQUAL operands: the value is fixed but the gradient is either operand's
+    pub minmax_tie: bool,
+    /// abs met a negative zero (f32::abs gives +0, `if v < 0 { -v } else { v }` keeps -0)
+    pub abs_of_neg_zero: bool,
 }
 impl Oracle {
     pub fn fmt(&self) -> String {
@@ -37,7 +43,7 @@ impl Oracle {
     pub fn un(&mut self, u: UnaryOpcode, a: f32) -> f32 {
         use UnaryOpcode::*;
         match u {
-            Neg => -a, Abs => if self.abs_keeps_neg_zero { if a < 0.0 { -a } else { a } } else { a.abs() }, Recip => 1.0 / a, Sqrt => a.sqrt(), Square => a * a,
+            Neg => -a, Abs => { if a == 0.0 && a.is_sign_negative() { self.abs_of_neg_zero = true; } if self.abs_keeps_neg_zero { if a < 0.0 { -a } else { a } } else { a.abs() } }, Recip => 1.0 / a, Sqrt => a.sqrt(), Square => a * a,
             Floor => a.floor(), Ceil => a.ceil(), Round => a.round(),
             Sin => self.log1(0, a, a.sin()), Cos => self.log1(1, a, a.cos()), Tan => self.log1(2, a, a.tan()),
             Asin => self.log1(3, a, a.asin()), Acos => self.log1(4, a, a.acos()), Atan => self.log1(5, a, a.atan()),
@@ -50,8 +56,9 @@ impl Oracle {
         use BinaryOpcode::*;
         match b {
             Add => x + y, Sub => x - y, Mul => x * y, Div => x / y,
-            Atan => { if x == 0.0 && y == 0.0 { self.atan00 = true; } self.log2(8, x, y, x.atan2(y)) }
-            Min | Max if x == 0.0 && y == 0.0 => { if x.is_sign_negative() != y.is_sign_negative() { self.zero_tie = true; } if (b == Min) == x.is_sign_negative() { x } else { y } }
+            Atan => { if x == 0.0 && y == 0.0 { self.atan00 = true; } if x == 0.0 { self.atan_y_zero = true; } self.log2(8, x, y, x.atan2(y)) }
+            Min | Max if x == 0.0 && y == 0.0 => { self.minmax_tie = true; if x.is_sign_negative() != y.is_sign_negative() { self.zero_tie = true; } if (b == Min) == x.is_sign_negative() { x } else { y } }
+            Min | Max if x == y => { self.minmax_tie = true; x }
             Min => if x < y { x } else if y < x { y } else if x.is_nan() || y.is_nan() { f32::NAN } else if x.is_sign_negative() { x } else { y },
             Max => if x > y { x } else if y > x { y } else if x.is_nan() || y.is_nan() { f32::NAN } else if x.is_sign_positive() { x } else { y },
             Compare => match x.partial_cmp(&y) { Some(c) => c as i8 as f32, None => f32::NAN },
